@@ -123,7 +123,7 @@ def oracles {α} (A : Arith α) (units : Int → α) (c : Case) : Out α → Str
     let kv : List (String × Bool) :=
       [("C01", okC01 ctx acts), ("C09", okC09 ctx acts),
        ("C02", if greg then okC02Gregory A ctx units acts else if meek then okC08cons A ctx acts else okC02Qpq A ctx c2 units acts),
-       ("C18", okC18rec ctx acts), ("EXC", okExclusions A ctx acts),
+       ("C18", okC18rec ctx acts), ("EXC", okExclusions A ctx acts), ("EXCQ", okExclusions A ctx acts false),
        ("C04q", okC04quota A ctx c2 acts), ("C04c", okC04complete A ctx acts),
        ("C05", c05skip || okC05 A ctx c2 allowance acts),
        ("C06", !greg || okC06 A c.ballots acts), ("C06r", !greg || okC06rew A ctx c2 acts),
